@@ -734,6 +734,22 @@ theorem C08_geo_detection (C : Nat) (tb fb : Rat) (preds : List (Nat × GeoClip)
 
 /-! non-vacuity of the geometry layer -/
 
+-- the hypotheses of `C08_geo_pairs_overlap` are satisfiable: a clip with a geometry-less prediction, two boxes and
+-- a time stamp, the solver pairing filtered source 0 with target 0
+example : GeoInputs (fun _ _ => 0) (1/100) 100
+    [(⟨0, true, []⟩, none), (⟨1, true, []⟩, some (.boundingBox 1 1000 2 2000)), (⟨2, true, []⟩, some (.timeStamp 0))]
+    [(⟨3, true, []⟩, some (.boundingBox (3/2) 1000 (5/2) 2000))] := by
+  refine ⟨by decide +kernel, by decide +kernel, fun _ _ => ⟨le_refl _, by decide +kernel⟩, ?_, ?_⟩
+  · intro g hg
+    simp only [geomsOf, List.filterMap_cons, List.filterMap_nil, List.mem_cons, List.not_mem_nil, or_false] at hg
+    rcases hg with rfl | rfl
+    · exact ⟨by decide +kernel, by decide +kernel⟩
+    · exact (by decide +kernel : (0 : Rat) ≤ 0)
+  · intro g hg
+    simp only [geomsOf, List.filterMap_cons, List.filterMap_nil, List.mem_cons, List.not_mem_nil, or_false] at hg
+    subst hg
+    exact ⟨by decide +kernel, by decide +kernel⟩
+example : SE.Proofs.C07.ValidAssignment 2 1 [(0, 0)] := (SE.Proofs.C07.C07_contract_decidable 2 1 [(0, 0)]).mp (by decide)
 -- the replay of the seeded change C08-1: two boxes disjoint in time *and* in frequency do not overlap,
 -- their affinity is 0, a pair between them fails the judge
 example : overlapCF (1/100) (.boundingBox 1 5000 2 7000) (.boundingBox 3 1000 4 3000) = some false := by decide +kernel
